@@ -3,7 +3,7 @@ C16 - Encodings and ordinals are order-preserving bijections.
 
 Space (complete for the stated widths):
   * every configuration of EFloatContext(es, nbits, inf, nan_kind, eoffset) with
-    nbits <= 6 (quick) / <= 8 (thorough), es in -1..nbits (so the ill-formed
+    nbits <= 7 (quick) / <= 9 (thorough), es in -1..nbits (so the ill-formed
     corners are in the box), both inf settings, the four NaN kinds, a set of
     exponent offsets; IEEEContext(es, nbits) over the same widths;
     FixedContext(signed, scale, nbits) and SMFixedContext(scale, nbits) for
@@ -91,9 +91,9 @@ def layout_of(family: str, p: dict):
 
 def tier_bounds(tier: str) -> dict:
     if tier == 'quick':
-        return {'efloat_nbits': 6, 'efloat_extra_nbits': 7, 'eoffsets': [-3, 0, 2], 'fixed_nbits': 8,
+        return {'efloat_nbits': 7, 'efloat_extra_nbits': 8, 'eoffsets': [-3, 0, 2], 'fixed_nbits': 8,
                 'scales': [-2, 0, 1], 'exp_nbits': 6, 'exp_eoffsets': [-2, 0, 3], 'exp_extra': []}
-    return {'efloat_nbits': 8, 'efloat_extra_nbits': None, 'eoffsets': [-3, -1, 0, 1, 2, 6], 'fixed_nbits': 8,
+    return {'efloat_nbits': 9, 'efloat_extra_nbits': None, 'eoffsets': [-3, -1, 0, 1, 2, 6], 'fixed_nbits': 10,
             'scales': [-5, -2, -1, 0, 1, 3], 'exp_nbits': 6, 'exp_eoffsets': [-5, -2, -1, 0, 1, 3, 8],
             'exp_extra': [(7, 0), (8, 0), (8, -1)], 'efloat_wide': [9]}
 
